@@ -7,9 +7,10 @@ Case grammar (one line):   <N>[n]|<step>;<step>;...
   step  := <sid> '>' cmd ('&' cmd)*          one Message of client <sid> (more than one cmd = PR_COMMAND_BATCH),
                                               or, for x.. commands, calls of the protected node API followed by
                                               PushSubscriptionMessages()
-  cmd   := sd:<relpath>:<0|1>                PR_COMMAND_SETDATA (1 = SETDATANODE_FLAG_ADDTOINDEX)
-         | io:<relpattern>:<b>,<b>,...       PR_COMMAND_INSERTORDEREDDATA, one parent pattern, one child per <b>
-         | ro:<relpattern>:<b>               PR_COMMAND_REORDERDATA
+  cmd   := sd:<relpath>,..:<flags>           PR_COMMAND_SETDATA, one field per path (distinct); a path ending in '/' has an empty
+                                              last clause = generated name; flags bit 0 = ADDTOINDEX, bit 1 = QUIET
+         | io:<relpattern>,..:<b>,<b>,...    PR_COMMAND_INSERTORDEREDDATA, parent patterns (PR_NAME_KEYS) of equal depth, one child per <b>
+         | ro:<relpattern>,..:<b>,..         PR_COMMAND_REORDERDATA, one field per (distinct) pattern, paired with the <b> list
          | rm:<relpattern>                   PR_COMMAND_REMOVEDATA
          | su:<abspattern> | sq:<abspattern> subscribe; sq = quiet subscription + GETDATA of the same pattern
          | un:<abspattern> | gd:<abspattern> unsubscribe; PR_COMMAND_GETDATA
@@ -20,6 +21,9 @@ Case grammar (one line):   <N>[n]|<step>;<step>;...
          | xsr:<owner>/<relpath>:<reldst>:<0|1>   SaveNodeTreeToMessage() of that node + RestoreNodeTreeFromMessage() at <reldst>
          | xra:<relpath>:<pos>               DataNode::RemoveIndexEntryAt() on an own node
          | xia:<relpath>:<pos>:<key>         DataNode::InsertIndexEntryAt() on an own node, when its documented preconditions hold
+         | rq:<relpattern>                   PR_COMMAND_REMOVEDATA with PR_NAME_REMOVE_QUIETLY (alone in its step).  Not a command of the
+                                              Coq run: the driver applies the model's remove_child_quiet; the replay oracle leaves the
+                                              replicas of the victims' parents and subtrees alone afterwards (quiet_frame)
          | dt                                the client closes its connection (alone in its step)
          | at                                a new session is attached (alone in its step; the <sid> is ignored)
   <b>   := '-' (empty string: end of index) | '!' (PR_NAME_REMOVE_FROM_INDEX) | a node name
@@ -48,20 +52,45 @@ def grouped(bs):
     return out
 
 
+def distinct(xs):
+    out = []
+    for x in xs:
+        if x not in out:
+            out.append(x)
+    return out
+
+
 def gen_msg_cmd(rng, n, allow_sub=True):
     r = rng.random()
     par = rng.choice(PARENTS)
     if r < 0.10:
-        return "sd:%s:0" % rng.choice([par, par + "/" + rng.choice(KIDS), "a/" + rng.choice(KIDS)])
+        q = rng.choice([0, 0, 0, 2])     # QUIET changes nothing for indices
+        if rng.random() < 0.2:
+            ps = distinct([rng.choice([par, par + "/" + rng.choice(KIDS), "a/" + rng.choice(KIDS), "b"]) for _ in range(rng.choice([2, 3]))])
+            return "sd:%s:%d" % (",".join(ps), q)
+        return "sd:%s:%d" % (rng.choice([par, par + "/" + rng.choice(KIDS), "a/" + rng.choice(KIDS)]), q)
     if r < 0.20:
-        return "sd:%s/%s:1" % (par, rng.choice(KIDS)) if rng.random() < 0.85 else "sd:%s:1" % rng.choice(["a", "b", "c"])
+        q = rng.choice([1, 1, 1, 3])
+        x = rng.random()
+        if x < 0.15:     # trailing '/': generated name
+            return "sd:%s/:%d" % (rng.choice([par, "a", "a", "b", "c/k"]), q)
+        if x < 0.30:     # several fields, explicit and generated
+            ps = distinct([rng.choice([par + "/" + rng.choice(KIDS), "a/" + rng.choice(KIDS), "a/", "b/", par + "/"]) for _ in range(rng.choice([2, 3]))])
+            return "sd:%s:%d" % (",".join(ps), q)
+        return "sd:%s/%s:%d" % (par, rng.choice(KIDS), q) if x < 0.9 else "sd:%s:%d" % (rng.choice(["a", "b", "c"]), q)
     if r < 0.42:
         pat = rng.choice([par, par, "a", "a", "*", "a/*", "b"])
+        if rng.random() < 0.15:    # several keys of equal depth
+            pat = ",".join(distinct(rng.choice([["a", "b"], ["a", "*"], ["b", "a", "c"], ["a/x", "a/*"], ["a/I0", "b/I0", "*/x"], ["*", "a"]])))
         bs = grouped([rng.choice(BEFORE) for _ in range(rng.choice([1, 1, 2, 3, 4]))])
         return "io:%s:%s" % (pat, ",".join(bs))
     if r < 0.58:
-        pat = rng.choice(["a/" + rng.choice(KIDS), "a/" + rng.choice(KIDS), "a/*", "*/x", "*/*", par + "/" + rng.choice(KIDS), "a", "b", "*"])
-        return "ro:%s:%s" % (pat, rng.choice(BEFORE + ["x", "I0"]))
+        def one():
+            return rng.choice(["a/" + rng.choice(KIDS), "a/" + rng.choice(KIDS), "a/*", "*/x", "*/*", par + "/" + rng.choice(KIDS), "a", "b", "*"])
+        if rng.random() < 0.2:
+            ps = distinct([one() for _ in range(rng.choice([2, 2, 3]))])
+            return "ro:%s:%s" % (",".join(ps), ",".join(rng.choice(BEFORE + ["x", "I0"]) for _ in ps))
+        return "ro:%s:%s" % (one(), rng.choice(BEFORE + ["x", "I0"]))
     if r < 0.68:
         return "rm:%s" % rng.choice(["a/" + rng.choice(KIDS), "a/" + rng.choice(KIDS), "a", "b", "a/*", "*", "*/x", par, "a/x/" + rng.choice(KIDS)])
     if r < 0.80:
@@ -111,7 +140,9 @@ def gen_step(rng, n, api_ok):
         return "%d>ua" % sid
     if r < 0.18 and n > 1:
         return "%d>dt" % sid
-    if r < 0.19 and n < 4:
+    if r < 0.195:
+        return "%d>rq:%s" % (sid, rng.choice(["a/" + rng.choice(KIDS), "a/" + rng.choice(KIDS), "a", "a/*", "*/x", "b"]))
+    if r < 0.205 and n < 4:
         return "0>at"
     k = 1 if r < 0.62 else rng.choice([2, 2, 3, 4])
     cmds, seen_gd = [], False
@@ -163,8 +194,13 @@ DIRECTED = [
     "2|1>su:*/a;1>su:0/a;1>su:*/a/*;0>sd:a:0;0>io:a:-,-;0>io:a/I0:-;1>ua;0>io:a:I0;0>rm:a/I1;1>gd:*/a;1>su:*/a;0>io:a:-",
     # removal of every entry, then re-subscription to an empty index
     "2|1>su:*/a;0>sd:a:0;0>io:a:-,-;1>un:*/a;0>rm:a/*;1>su:*/a;0>io:a:-",
+    # several fields / keys in one Message; trailing-slash SETDATA (generated names), also next to explicit I-names; QUIET SETDATA
+    "2|1>su:*/*;0>sd:a,b,a/x:0;0>sd:a/,a/I5,b/:1;0>sd:a/,c/k/:1;0>sd:a/:3;0>sd:a/z:2;0>io:a,b:-,I0;0>io:*,a:x;0>ro:a/I0,a/*,b/I0:-,I1,!;1>gd:*/*",
+    "1|0>su:*/a;0>sd:a/I1:1;0>sd:a/:1;0>sd:a/:1;0>sd:a/I3:0;0>sd:a/:1;0>sd:a/:1;0>sd:c/k/:1;0>gd:*/c/k",
     # wildcard parents
     "2|1>su:*/*;0>sd:a:0;0>sd:b:0;0>io:*:-,-;0>io:*:I0;0>ro:*/I1:I0;0>rm:*/I0;1>gd:*/*",
+    # quiet removal: the tree and later streams still agree with the model; only the parent's watchers go stale
+    "2|1>su:*/a;1>su:*/b;0>sd:a:0;0>sd:b:0;0>io:a,b:-,-,-;0>rq:a/I1;0>io:a:I2;0>io:b:I0;0>rm:a/I0;0>rq:b;0>sd:b:0;0>io:b:-;1>gd:*/a",
     # a session leaves: its nodes go, watchers see every index drained; later commands of that session are void
     "3|1>su:*/*;2>su:*/*;0>sd:a:0;0>io:a:-,-;0>io:a/I0:-,-;0>su:*/a;0>dt;0>io:a:-;1>sd:a:0;1>io:a:-;1>dt;2>gd:*/*;2>dt",
     # sessions joining later: they see snapshots on subscribing, and get their own subtree
@@ -189,11 +225,13 @@ class CHECK(vlib.Check):
                 "reflector/StorageReflectSession.cpp: SetDataNode (ADDTOINDEX, remove-from-index), InsertOrderedData, ReorderDataCallback, "
                 "DoRemoveData, DoGetData/GetDataCallback (clear+inserts snapshot, own-subtree short cut on _indexingPresent), SUBSCRIBE / "
                 "REMOVEPARAMETERS, NodeIndexChanged + PushSubscriptionMessages after every (sub-)Message, PR_COMMAND_BATCH, CloneDataNodeSubtree. "
-                "Single wildcard pattern per command (clauses: name or *). Not modelled: query filters, quiet flags, payloads, DATAITEMS, "
+                "Wildcard patterns with clauses name or *; several fields per SETDATA/REORDERDATA, several equal-depth keys per INSERTORDEREDDATA, one key per REMOVEDATA. "
+                "PR_NAME_REMOVE_QUIETLY: remove_child_quiet + quiet_frame (outside the histories of replay_eq; corresponded). "
+                "Not modelled: query filters, quiet subscriptions without GETDATA, payloads, DATAITEMS, "
                 "Message boundaries of the update stream (only per-client per-node order), node/child count limits, DataNode::InsertIndexEntryAt called against its documented preconditions.")
     premises = ["subscriber tables equal pattern matching (C04 refcount_inv; compared in the correspondence run through DataNode::GetSubscribers())",
                 "a single-pattern traversal visits exactly the matching nodes depth-first in child-table order (C05)",
-                "no SETDATANODE_FLAG_QUIET / PR_NAME_REMOVE_QUIETLY / PR_NAME_SUBSCRIBE_QUIETLY without a following GETDATA (they suppress notifications by design)",
+                "no PR_NAME_REMOVE_QUIETLY, no SETDATANODE_FLAG_QUIET on a remove-from-index SetDataNode, no PR_NAME_SUBSCRIBE_QUIETLY without a following GETDATA (they suppress index notifications by design; see quiet_frame); SETDATANODE_FLAG_QUIET on SETDATA does not concern indices and is exercised",
                 "the client drops its replica of a node when it unsubscribes from it, and treats updates of nodes it is not subscribed to as one-shot reads",
                 "_orderedCounter below 2^32; node depth and counts below the configured limits",
                 "a new DataNode starts with _orderedCounter = 0 (true since /repo 3a5eebc: DataNode::Init() resets it; before that a node recycled from "
